@@ -88,6 +88,10 @@ def build_libs(names):
 
 def env(extra=None):
     e = {"LD_LIBRARY_PATH": vfcore.ld_path("plain")}
+    if os.environ.get("VF_MTEST_LIBPATH"):
+        # validation of the monitors themselves against a privately patched libTFELMTest / libTFELCheck built under /tmp
+        # (never set by ./vf or the manifest commands)
+        e["LD_LIBRARY_PATH"] = os.environ["VF_MTEST_LIBPATH"] + ":" + e["LD_LIBRARY_PATH"]
     if extra:
         e.update(extra)
     return e
